@@ -277,7 +277,6 @@ PROPS = {
         "assumptions": ["well-formed data files; at most one map id per (map type, owner)"],
     },
     "C03": {
-        "pending_props": True,
         "manifest": {
             "text": "Lean 4: Spec.lpm (longest declared subnet of the client's family containing it, not longer than the client's "
                     "prefix) and Spec.mapFor; theorems cidr_laminar, lpm characterisation, exact-before-wildcard map choice, "
@@ -301,7 +300,6 @@ PROPS = {
                         "other than ::/0 contains ::ffff:0:0/96"],
     },
     "C04": {
-        "pending_props": True,
         "manifest": {
             "text": "Lean 4: spec_frame (the Spec answer is a function of the records visible to the client's location), "
                     "serve_v1_frame (two stores that agree on the keys tagged with the client's location or untagged give the "
@@ -322,7 +320,6 @@ PROPS = {
         "assumptions": [],
     },
     "C10": {
-        "pending_props": True,
         "manifest": {
             "text": "Lean 4: scope_bounds, scope_default, scope_zero_without_map, resolver_fallback on Spec.locate and their "
                     "model counterparts on Loc.ecsLocation / findLocationTop (theorem list in the evidence). Correspondence: "
@@ -341,7 +338,6 @@ PROPS = {
         "assumptions": ["subnets well-formed (C03 W1-W3)"],
     },
     "C13": {
-        "pending_props": True,
         "manifest": {
             "text": "Lean 4: serve_v1_never_panics (for every store and every wire-valid query name the v1 query path never reaches "
                     "a Go panic), the v2 counterpart under the key-format hypothesis, reply_shape. Correspondence: wire-valid "
@@ -359,5 +355,52 @@ PROPS = {
         "rule": "30 (thorough 600) databases (8 special, the rest generated) x 40 queries incl. 10 extreme ones each; distinct = "
                 "distinct (op, output shape)",
         "assumptions": [],
+    },
+    "C20": {
+        "shrink": False,
+        "run_timeout": 3600,
+        "manifest": {
+            "text": "Lean 4 theorems over a model of the listener handler chain (question guard -> max-answer context -> optional "
+                    "RFC 8482 ANY refusal -> optional whoami -> database handler as a PARAMETER): chain_transparent (for an "
+                    "arbitrary database handler the chain returns exactly its answer under the listener's max-answer unless the "
+                    "query is ANY under refusal, names the whoami domain or has no question), any_refused / _content / "
+                    "_independent (exactly one HINFO \"RFC 8482\" \"\" IN 86400, nothing from the database), "
+                    "no_question_failure, chain_no_panic, listener_no_question, whoami_only_on_match, oversize_truncated / "
+                    "tcp_complete over an abstract truncation rule. Correspondence: a real fbserver on loopback (4 listeners = "
+                    "max answer 1-4, UDP with buffers none/512/1232/4096 and TCP) against in-process FBDNSDB.ServeDNS and "
+                    "whoami.Handler on the same database; hand-built header-only packets.",
+            "note": "Partial: sockets, the miekg server loop, wire packing and dns.Msg.Truncate are runtime/library behaviour, "
+                    "explored at run time (raw length and TC checked) not proved; whoami content is a parameter.",
+        },
+        "trusted": COMMON_TRUSTED + [
+            "miekg/dns server loop, accept filter, Truncate; coredns request.Scrub/SizeAndDo: transcribed as labelled library layers or abstract rules",
+        ],
+        "rule": "40 (thorough 400) databases x ~36 query tokens each over 4 listeners x {UDP none/512/1232/4096, TCP} incl. ANY, "
+                "whoami names, a >1500-byte TXT RRset, a 4-address name, header-only packets; distinct = distinct (op, output shape)",
+        "assumptions": [],
+    },
+    "C09": {
+        "prelude_ops": ["isprint"],
+        "manifest": {
+            "text": "Lean 4 theorems over a record-level model through which the validated line codec factors "
+                    "(convertLine_factors): parse_marshal (for well-formed records of the 15 line types Z % . & + = @ S C ^ ' : M 8 "
+                    "! the re-serialised text decodes to the same record), hence compile_marshal_parse and marshal_idempotent; "
+                    "fields_resplit / quoted_field_has_no_separator (from C17); rangepoint_text_roundtrip; "
+                    "accumulator_line_compiles; the full-strength statements are kept as defs with proved negations from "
+                    "concrete witnesses (12 defect classes, known findings). Correspondence: real DecodeLn -> MarshalText -> "
+                    "DecodeLn+MarshalMap -> MarshalText on generated lines of all 17 types, and real preprocessing of whole "
+                    "files vs compile of the original (RocksDB codec).",
+            "note": "Partial: B/H (SVCB) lines are covered by correspondence only; the file-level preprocessing theorem is "
+                    "validated by correspondence and proved only for its per-line ingredients; hypotheses Plain (putdomtext "
+                    "leaves the quoted name unchanged) and IpOK (IP.String/ParseIP round trip: a validated library model).",
+        },
+        "trusted": COMMON_TRUSTED + [
+            "net.IP.String / ParseIP round trip (hypothesis IpOK, brute-forced and checked by correspondence)",
+        ],
+        "rule": "3000 conv + 6000 norm + 250 prep cases per quick run (thorough 100k/150k/5k): lines of all 17 types with every "
+                "optional field independently present/absent/0, both separators, escapes, wildcard owners, locations, "
+                "IPv4/IPv6/mapped; inputs of the recorded defect classes kept out of the main stream; distinct = distinct (op, "
+                "output shape)",
+        "assumptions": ["well-formed records (WF predicate in Props/C09.lean)"],
     },
 }
